@@ -3537,8 +3537,6 @@ static Token *function(Token *tok, Type *basety, VarAttr *attr) {
     fn->is_inline_definition = !attr->is_static && attr->is_inline && !attr->is_extern;
   }
 
-  fn->is_root = !(fn->is_static && fn->is_inline);
-
   if (consume(&tok, tok, ";"))
     return tok;
 
@@ -3712,7 +3710,7 @@ Obj *parse(Token *tok) {
   }
 
   for (Obj *var = globals; var; var = var->next)
-    if (var->is_root)
+    if (var->is_root || (var->is_function && !(var->is_static && var->is_inline)))
       mark_live(var);
 
   // Remove redundant tentative definitions.
